@@ -36,6 +36,11 @@ def run(ctx, replay):
     # sensitivity: completeStage in four steps (lock section, unlock, pending.Dec(), read of the first error + callback):
     # an error sampled inside the lock section instead of after pending reached zero must violate ErrorReported
     ctx.model_check("MCPipeline", "MCPipeline_dev_errsample.cfg", expect="violation")
+    # a panic while a stage plans / registers its next stages (NextStages() itself, Identifier() of the k-th next stage):
+    # a success completion deferred at the top of the complete-callback (seeded change C19f) completes the stage twice;
+    # counting the stage as pending before its Identifier() is evaluated (before the repair 37fa917) never completes
+    ctx.model_check("MCPipeline", "MCPipeline_dev_defersuccess.cfg", expect="violation")
+    ctx.model_check("MCPipeline", "MCPipeline_dev_registerfirst.cfg", expect="violation")
     # the plan tree of a stage (baseStage.execute): pre-order, first failing operator = outcome of the stage
     ctx.model_check("MCPipelineTree", "MCPipelineTree.cfg" if thorough else "MCPipelineTree_quick.cfg", timeout=1800)
     # sensitivity: "the result of the last child wins" in the child loop must violate the property in the model
